@@ -141,15 +141,21 @@ def late (U attemptTime acquireTime : Nat) : Bool := decide (U + 2 * attemptTime
 /-- first half of `tryAcquire`: `attemptTime = time.time()`; submit `acquire(lockID, selfID, attemptTime)`. -/
 def Client.tryAcquireCmd (c : Client) (l attemptTime : Nat) : Cmd := .acquire l c.self attemptTime
 
-/-- second half of `tryAcquire` (sync path after the call returned, async path inside `asyncCallback`):
-`res` is the value delivered for the `acquire` command (`none` = `None`, delivered with an error code),
-`acquireTime = time.time()` is read only when `res` is truthy.  Result: the value handed to the caller /
-the user callback, and the commands submitted. -/
-def Client.tryAcquireFinish (cfg : Cfg) (c : Client) (l attemptTime acquireTime : Nat) (res : Option Bool) :
-    Option Bool × List Cmd :=
+/-- second half of `tryAcquire` (sync path after the call returned or raised, async path inside
+`asyncCallback`): `res` is the value delivered for the `acquire` command (`none` = `None`, delivered with an
+error code / an exception in the sync path), `acquireTime = time.time()` is read only when `res` is truthy.
+`outcomeOpen`: the failure reported is one after which the command may still be committed -- `Timeout` of the
+sync call, `LEADER_CHANGED` on either path (every other error code means the command never entered a log).
+`comp = true` is the code with `fixes/D73-failed-acquire-compensating-release.diff` (a failure with an open
+outcome submits a compensating `release`), `comp = false` the code before it.
+Result: the value handed to the caller / the user callback (`none` also stands for the exception the sync call
+re-raises), and the commands submitted. -/
+def Client.tryAcquireFinish (cfg : Cfg) (c : Client) (l attemptTime acquireTime : Nat) (res : Option Bool)
+    (outcomeOpen : Bool := false) (comp : Bool := true) : Option Bool × List Cmd :=
   if res = some true then
     if late cfg.U attemptTime acquireTime then (some false, [.release l c.self])
     else (some true, [])
+  else if outcomeOpen && comp then (res, [.release l c.self])
   else (res, [])
 
 /-- one pass of the loop body of `_autoAcquireThread` after `time.sleep(0.1)`.
